@@ -3,6 +3,7 @@ package props
 import (
 	"bytes"
 	"fmt"
+	"strings"
 
 	"github.com/ulikunitz/xz/lzma"
 
@@ -62,6 +63,19 @@ func c08Payload(op string, k int) []byte {
 		return c08N
 	case "wP":
 		return c08P
+	}
+	if strings.HasPrefix(op, "wX:") {
+		// "wX:<n>:<kind>": exactly n bytes of a run / text / incompressible data
+		var n int
+		var kind string
+		fmt.Sscanf(op[3:], "%d:%s", &n, &kind)
+		switch kind {
+		case "run":
+			return bytes.Repeat([]byte{'q'}, n)
+		case "text":
+			return textBytes(36, n)
+		}
+		return randBytes(36, n)
 	}
 	return nil
 }
@@ -304,6 +318,21 @@ func runC08(r *core.Run) {
 			}
 		}
 		rec3(nil)
+	}
+	// writes that fill the dictionary plus the look-ahead buffer exactly (and one byte less / more):
+	// the in-Write compression then ends with nothing left to look ahead
+	for _, c := range []L2Cfg{{DictCap: 4096, BufSize: 273}, {DictCap: 4096, BufSize: 4096}, {DictCap: 65536, BufSize: 4096}, {DictCap: 4096, BufSize: 273, Matcher: 1}} {
+		for d := -1; d <= 1; d++ {
+			n := c.DictCap + c.BufSize + d
+			for _, kind := range []string{"run", "text", "random"} {
+				if c.Matcher == 1 && kind == "run" && n > 10000 {
+					continue
+				}
+				wx := fmt.Sprintf("wX:%d:%s", n, kind)
+				cases = append(cases, C08Case{Cfg: c, Hist: []string{wx, "f", "c"}}, C08Case{Cfg: c, Hist: []string{wx, "c"}},
+					C08Case{Cfg: c, Hist: []string{"w10", fmt.Sprintf("wX:%d:%s", n-10, kind), "f", "w10", "c"}}, C08Case{Cfg: c, Hist: []string{wx, wx, "f", "c"}})
+			}
+		}
 	}
 	// configuration histories: a Writer2Config variable verified with configuration A, then set to B
 	{
